@@ -41,14 +41,16 @@ fn platform_run(len: usize, nchan: usize, base_fds: Option<Vec<i32>>, out: &mut 
     let data = make_payload(13, 0, 0, len);
     let sent = data.clone();
     let rb = region_bytes.clone();
+    // the attached channels: their sending ends travel, their receiving ends go to the receiving
+    // thread, which probes every arrived descriptor for being the attached one in that position
+    let mut chans = vec![];
+    let mut keep = vec![];
+    for _ in 0..nchan {
+        let (t, r) = platform::channel().unwrap();
+        chans.push(OsIpcChannel::Sender(t));
+        keep.push(r);
+    }
     sim::spawn("sender", Some(2), move || {
-        let mut chans = vec![];
-        let mut keep = vec![];
-        for _ in 0..nchan {
-            let (t, r) = platform::channel().unwrap();
-            chans.push(OsIpcChannel::Sender(t));
-            keep.push(r);
-        }
         hist::log("send.inv", 0, data.len() as i64, nchan as i64, "");
         let r = tx.send(&data, chans, vec![OsIpcSharedMemory::from_bytes(&rb)]);
         let fired = sim::g().stats.f_enobufs;
@@ -60,7 +62,6 @@ fn platform_run(len: usize, nchan: usize, base_fds: Option<Vec<i32>>, out: &mut 
         let r2 = tx.send(&make_payload(13, 0, 1, 64), vec![], vec![]);
         hist::log(if r2.is_ok() { "follow.ok" } else { "follow.err" }, 0, 0, 0, "");
         drop(tx);
-        drop(keep);
     });
     sim::spawn("receiver", None, move || {
         let mut tries = 0;
@@ -70,8 +71,23 @@ fn platform_run(len: usize, nchan: usize, base_fds: Option<Vec<i32>>, out: &mut 
                     let tag = check_payload(&d).map(|t| t.2 as i64).unwrap_or(-1);
                     let regs_ok = rg.iter().all(|g| &g[..] == &region_bytes[..]);
                     hist::log("deliver", tag, d.len() as i64, ((ch.len() as i64) << 8) | rg.len() as i64, if regs_ok { "" } else { "REGION-DIFFERS" });
-                    for c in ch.iter_mut() {
-                        drop(c.to_sender());
+                    if tag == 0 {
+                        let mut bad = 0;
+                        for (i, c) in ch.iter_mut().enumerate() {
+                            let s = c.to_sender();
+                            let _ = s.send(&[i as u8, 0x5a], vec![], vec![]);
+                            match keep.get(i).map(|k| k.try_recv()) {
+                                Some(Ok((d, _, _))) if d == [i as u8, 0x5a] => {},
+                                _ => bad += 1,
+                            }
+                        }
+                        if bad > 0 {
+                            hist::log("identity.bad", bad, ch.len() as i64, 0, "");
+                        }
+                    } else {
+                        for c in ch.iter_mut() {
+                            drop(c.to_sender());
+                        }
                     }
                     if tag == 1 {
                         break;
@@ -104,6 +120,9 @@ fn platform_run(len: usize, nchan: usize, base_fds: Option<Vec<i32>>, out: &mut 
             }
             if e.c != ((nchan as i64) << 8) | 1 {
                 out.viol("descriptor-list-altered:recv", format!("platform level: sent {} channels + 1 region, received {} channels + {} regions ({} refusals fired)", nchan, e.c >> 8, e.c & 0xff, fired));
+            }
+            if let Some(b) = evs.iter().find(|e| e.op == "identity.bad") {
+                out.viol("descriptor-list-altered:recv", format!("platform level: {} of the {} received channel descriptors are not the attached channel of that position ({} refusals fired)", b.a, b.b, fired));
             }
             if e.s == "REGION-DIFFERS" {
                 out.viol("altered:recv", "platform level: region contents differ".into());
